@@ -1128,7 +1128,7 @@ func Retract(vm *VM, t Term, k Cont, env *Env) *Promise {
 			return Unify(vm, t, raw, func(env *Env) *Promise {
 				// Removes the very clause it unified with, wherever it is by now, without touching the snapshots of open calls.
 				for j := range u.clauses {
-					if id(u.clauses[j].raw) == id(c.raw) {
+					if u.clauses[j].same(c) {
 						n := j + 1
 						for n < len(u.clauses) && u.clauses[n].sibling(c) {
 							n++
